@@ -29,7 +29,7 @@ func VerifRouterAddNIC() {
 	nb := byte(vIntR("net2", 0, 0, 255))
 	nc := byte(vIntR("net3", 0, 0, 255))
 	mask := net.CIDRMask(plen, 32)
-	base := net.IP{10, nb, nc, 0}.Mask(mask)
+	base := net.IP{10, nb, nc, byte(vIntR("net4", 0, 0, 255))}.Mask(mask) // e.g. x.y.z.128/25
 	r := &Router{
 		ipv4Net: &net.IPNet{IP: base, Mask: mask},
 		lastID:  byte(vIntR("lastID", 0, 0, 254)),
